@@ -500,3 +500,170 @@ class GetFlagTemplate(Contract):
 
     def frame_ok(self, I, inp, obj, name):
         return False
+
+
+# ----------------------------------------------------------------------------------------------- in-list expression, comparisons, detections
+@register
+class AsInExpression(Contract):
+    """convert_condition_as_in_expression: the in-list template receives the escaped field shared by all comparisons, the OR-in operator
+    for an OR and the AND-in operator for an AND, and the values in order - strings converted like every other string literal, numbers as
+    their text - joined by the list separator"""
+    id = "C01.TextQueryBackend.convert_condition_as_in_expression"
+    target = f"{CB}:TextQueryBackend.convert_condition_as_in_expression"
+    props = ("C01", "C05")
+    cases = tuple((cls, shape) for cls in ("ConditionOR", "ConditionAND") for shape in ("s", "ss", "sn", "ns", "nsn")) + (("ConditionOR", "off"), ("ConditionOR", "fields_differ"))
+
+    def setup(self, E):
+        esc_summary(E)
+        E.summaries[f"{CB}:TextQueryBackend.convert_value_str"] = lambda I, so, a, k: Sym(z3.Function("convert_value_str", z3.StringSort(), z3.StringSort())(a[0].ghost["id"].t), "str")
+
+    def args(self, I, case):
+        cls, shape = case
+        calls = []
+        idx = I.E.index
+        fld = I.fresh("field", "str")
+        F = idx.lookup("sigma.conditions:ConditionFieldEqualsValueExpression")
+        args_, vals = [], []
+        for i, ch in enumerate(shape if shape not in ("off", "fields_differ") else "ss"):
+            if ch == "s":
+                v = SObj(idx.lookup(f"{TY}:SigmaString"), {}, lazy=True)
+                v.ghost["id"] = I.fresh(f"sid{i}", "str")
+            else:
+                txt = I.fresh(f"num{i}", "str")
+                v = SObj(idx.lookup(f"{TY}:SigmaNumber"), {"__str__": NativeFn("__str__", lambda I2, a, k, txt=txt: txt)}, lazy=True)
+                v.ghost["txt"] = txt
+            vals.append(v)
+            f_i = I.fresh("other_field", "str") if (shape == "fields_differ" and i == 1) else fld
+            args_.append(SObj(F, {"field": f_i, "value": v}, lazy=True))
+        if shape == "fields_differ":
+            I.ctx.assume(args_[1].fields["field"].t != fld.t)
+        cond = SObj(idx.lookup(f"sigma.conditions:{cls}"), {"args": args_}, lazy=True)
+        me = SObj(idx.lookup(f"{CB}:TextQueryBackend"), {"field_in_list_expression": None if shape == "off" else tmpl(I, calls, "in"), "list_separator": I.fresh("list_separator", "str"),
+                                                        "or_in_operator": I.fresh("or_in", "str"), "and_in_operator": I.fresh("and_in", "str")}, lazy=True)
+        return {"self": me, "args": [cond, I.fresh("state", "opaque", "State")], "calls": calls, "fld": fld, "vals": vals, "case": case}
+
+    def post(self, I, inp, r):
+        cls, shape = inp["case"]
+        c, calls, me = I.ctx, inp["calls"], inp["self"]
+        c.require(shape not in ("off", "fields_differ"), "no template / differing fields are rejected")
+        ok = len(calls) == 1 and r is calls[0][2]
+        c.require(ok, "the in-list template is rendered once and returned")
+        if ok:
+            k = calls[0][1]
+            c.require(is_esc_of(I, k.get("field"), inp["fld"]), "field == the escaped field of the comparisons")
+            c.require(k.get("op") is me.fields["or_in_operator" if cls == "ConditionOR" else "and_in_operator"], "op == the in-operator of the connective (OR -> or-in, AND -> and-in)")
+            cvs = z3.Function("convert_value_str", z3.StringSort(), z3.StringSort())
+            parts = []
+            for i, v in enumerate(inp["vals"]):
+                if i:
+                    parts.append(me.fields["list_separator"].t)
+                parts.append(cvs(v.ghost["id"].t) if "id" in v.ghost else v.ghost["txt"].t)
+            want = parts[0] if len(parts) == 1 else z3.Concat(*parts)
+            c.require(ops.kind_of(k.get("list")) == "str" and mk_str(k.get("list")) == want, "list == the values in order (strings converted as literals, numbers as text), joined by the list separator")
+
+    def raises(self, I, inp, exc):
+        shape = inp["case"][1]
+        I.ctx.require((shape == "off" and exc_is(I, exc, "NotImplementedError")) or (shape == "fields_differ" and exc_is(I, exc, "ValueError")), f"NotImplementedError without template, ValueError for differing fields (got {exc_name(exc)})", kind="SAFE")
+
+    def frame_ok(self, I, inp, obj, name):
+        return False
+
+
+@register
+class CompareOp(Contract):
+    """field <op> number: the comparison template receives the escaped field, the backend's token for THIS operator and the number"""
+    id = "C01.TextQueryBackend.convert_condition_field_compare_op_val"
+    target = f"{CB}:TextQueryBackend.convert_condition_field_compare_op_val"
+    props = ("C01", "C03")
+    cases = ("LT", "LTE", "GT", "GTE", "off")
+
+    def setup(self, E):
+        esc_summary(E)
+        E.externals["str.format"] = lambda I, a, k: I.E.str_format_hook(I, a, k)
+
+    def args(self, I, case):
+        idx = I.E.index
+        OPc = idx.lookup(f"{TY}:SigmaCompareExpression.CompareOperators") if False else None
+        CE = idx.lookup(f"{TY}:SigmaCompareExpression")
+        ops_cls = None
+        for n in ("CompareOperators",):
+            try:
+                ops_cls = idx.lookup(f"{TY}:{n}")
+            except Exception:
+                ops_cls = None
+        if ops_cls is None:
+            raise OutsideSubset("compare operator enum not found")
+        toks = {EnumVal(ops_cls, o): I.fresh(f"token_{o}", "str") for o in ("LT", "LTE", "GT", "GTE")}
+        num = SObj(idx.lookup(f"{TY}:SigmaNumber"), {}, lazy=True)
+        fld = I.fresh("field", "str")
+        val = SObj(CE, {"number": num, "op": EnumVal(ops_cls, case if case != "off" else "GT")}, lazy=True)
+        cond = SObj(idx.lookup("sigma.conditions:ConditionFieldEqualsValueExpression"), {"field": fld, "value": val}, lazy=True)
+        got = {}
+
+        def fmt(I2, a, k):
+            got.update(k)
+            got["$self"] = a
+            return I2.fresh("rendered", "str")
+        I.E.str_format_hook = fmt
+        t = I.fresh("template", "str")
+        me = SObj(idx.lookup(f"{CB}:TextQueryBackend"), {"compare_op_expression": None if case == "off" else t, "compare_operators": toks, "field_timestamp_part_expression": None, "timestamp_part_mapping": None}, lazy=True)
+        return {"self": me, "args": [cond, I.fresh("state", "opaque", "State")], "got": got, "toks": toks, "num": num, "fld": fld, "val": val, "case": case}
+
+    def post(self, I, inp, r):
+        got = inp["got"]
+        I.ctx.require(inp["case"] != "off" and "$self" in got, "the comparison template is rendered")
+        if "$self" in got:
+            I.ctx.require(is_esc_of(I, got.get("field"), inp["fld"]), "field == the escaped field")
+            I.ctx.require(got.get("operator") is inp["toks"][inp["val"].fields["op"]], f"operator == the backend's token for {inp['case']}")
+            I.ctx.require(got.get("value") is inp["num"], "value == the number of the comparison")
+
+    def raises(self, I, inp, exc):
+        I.ctx.require(exc_is(I, exc, "NotImplementedError") and inp["case"] == "off", f"NotImplementedError exactly without template (got {exc_name(exc)})", kind="SAFE")
+
+    def frame_ok(self, I, inp, obj, name):
+        return False
+
+
+@register
+class DetectionPostprocess(Contract):
+    """SigmaDetection.postprocess: one item -> that item's condition; several -> the detection's linking (AND for a map, OR for a list) over
+    the items' conditions in order, hanging under the parent; none (everything dropped) -> no condition"""
+    id = "C01.SigmaDetection.postprocess"
+    target = "sigma.rule.detection:SigmaDetection.postprocess"
+    props = ("C01", "C02")
+    cases = tuple((n, link) for n in (0, 1, 2, 3) for link in ("ConditionAND", "ConditionOR"))
+    assumed = ["the items' own postprocess is abstract (returns their condition)"]
+
+    def args(self, I, case):
+        n, link = case
+        idx = I.E.index
+        conds = [SObj(idx.lookup("sigma.conditions:ConditionFieldEqualsValueExpression"), {"field": f"f{i}", "value": SObj("V", {}), "parent": None}) for i in range(n)]
+        seen = []
+
+        def pp(i):
+            def f(I2, a, k):
+                seen.append((i, a[1] if len(a) > 1 else k.get("parent")))
+                return conds[i]
+            return f
+        items = [SObj("Item", {"postprocess": NativeFn("postprocess", pp(i))}) for i in range(n)]
+        me = SObj(idx.lookup("sigma.rule.detection:SigmaDetection"), {"detection_items": items, "item_linking": ClassRef(idx.lookup(f"sigma.conditions:{link}")), "source": None, "parent": None}, lazy=True)
+        parent = SObj("Parent", {})
+        return {"self": me, "args": [I.fresh("detections", "opaque", "Detections"), parent], "conds": conds, "seen": seen, "parent": parent, "case": case}
+
+    def post(self, I, inp, r):
+        n, link = inp["case"]
+        c, me = I.ctx, inp["self"]
+        c.require([i for i, _ in inp["seen"]] == list(range(n)) and all(p is me for _, p in inp["seen"]), "every item is postprocessed once, in order, with this detection as parent")
+        if n == 0:
+            c.require(r is None, "an empty detection is no condition")
+        elif n == 1:
+            c.require(r is inp["conds"][0], "a single item: its condition")
+        else:
+            ok = isinstance(r, SObj) and getattr(r.cls, "name", "") == link and isinstance(r.fields.get("args"), list) and len(r.fields["args"]) == n and all(a is b for a, b in zip(r.fields["args"], inp["conds"]))
+            c.require(ok, f"{link} over the items' conditions, in order")
+            if ok:
+                c.require(r.fields.get("parent") is inp["parent"], "the linking node hangs under the detection's parent")
+                c.require(all(x.fields.get("parent") is r for x in inp["conds"]), "every item condition's parent is the linking node")
+
+    def frame_ok(self, I, inp, obj, name):
+        return name in ("parent", "source")
